@@ -138,6 +138,43 @@ def run(P, tier="quick"):
                                                "the rows of %s are reallocated for index < %s, but %s rows are allocated: rows "
                                                "beyond the logical size keep their old width while the recorded width grows" %
                                                (bn, bound.text(), ALLOC_EXTENT[bn]), lp.line))
+    # ALLOC-EXTENT-STEP: a loop that allocates the rows one by one and can fail in the middle must advance the
+    # allocation extent inside the loop, otherwise the rows allocated before the failure are not covered by it
+    for f in P.lib_functions():
+        if f.cfg is None:
+            continue
+        for lp in f.walk():
+            if lp.k != "ForStmt" or lp.kids[4] is None:
+                continue
+            init = lp.kids[0]
+            if init is None or init.k != "DeclStmt" or not init.kids:
+                continue
+            iv = init.kids[0].get("decl")
+            body = lp.kids[4]
+            rows = set()
+            for m in body.walk():
+                if m.k == "BinaryOperator" and m.op == "=" and m.kids[1].strip().k == "CallExpr" and \
+                        m.kids[1].strip().callee in ("calloc", "malloc"):
+                    l = m.kids[0].strip()
+                    if l.k == "ArraySubscriptExpr" and l.kids[1].strip().k == "DeclRefExpr" and l.kids[1].strip().refdecl == iv:
+                        b = l.kids[0].strip()
+                        if b.k == "MemberExpr" and b.member in ALLOC_EXTENT:
+                            rows.add(b.member)
+            if not rows or not any(m.k == "ReturnStmt" for m in body.walk()):
+                continue
+            for bn in sorted(rows):
+                ext = ALLOC_EXTENT[bn]
+                stepped = any((m.k == "UnaryOperator" and m.op == "++" or m.k in ("BinaryOperator", "CompoundAssignOperator") and
+                               m.op in ("=", "+=")) and m.kids[0].strip().k == "MemberExpr" and m.kids[0].strip().member == ext
+                              for m in body.walk())
+                key = "R14b|%s|%s|extent-step:%s" % (f.file, f.name, bn)
+                if stepped:
+                    R.ok(key, PROPS)
+                else:
+                    R.violated(Finding("R14b", PROPS, f.file, f.name, "extent-step:" + bn,
+                                       "rows of %s are allocated one by one in a loop that can return on failure, but %s is not "
+                                       "advanced inside the loop: rows allocated before a failing one are lost to free() and to "
+                                       "the repeated call" % (bn, ext), lp.line))
     R.counts["pointer_vector_reallocs"] = nre
     R.check_floor()
     return R
